@@ -89,6 +89,9 @@ def build_factx(repo=None):
     return True, out
 
 
+HARNESS_EXE = os.path.join(BIN, f"harness.{os.getpid()}")
+
+
 def build_harness():
     src = os.path.join(VERIF, "harness")
     if os.path.realpath(REPO) != "/repo":
@@ -102,6 +105,10 @@ def build_harness():
     exe = os.path.join(BIN, "harness")
     os.makedirs(BIN, exist_ok=True)
     rc, out = sh(["go", "build", "-tags", "verif", "-o", exe, "."], cwd=src, env=GOENV)
+    if rc == 0:
+        # this run's own copy: a concurrent check (of another tree) may rebuild the shared binary while this one runs
+        shutil.copyfile(exe, HARNESS_EXE)
+        os.chmod(HARNESS_EXE, 0o755)
     return rc == 0, out
 
 
@@ -183,13 +190,14 @@ def grep_audit():
 
 def run_suite(suite, seed, ops, tag):
     """harness -> trace -> driver. returns dict with parsed driver output"""
-    d = os.path.join(WORK, suite)
+    # scratch runs (several may run at once, on different trees) keep their traces apart
+    d = os.path.join(WORK, f"scratch-run-{os.getpid()}", suite) if SCRATCH else os.path.join(WORK, suite)
     os.makedirs(d, exist_ok=True)
     trace = os.path.join(d, f"{tag}.trace")
     stats = os.path.join(d, f"{tag}.stats")
     outp = os.path.join(d, f"{tag}.out")
     t0 = time.time()
-    rc, out = sh([os.path.join(BIN, "harness"), "-suite", suite, "-seed", str(seed), "-ops", str(ops), "-out", trace,
+    rc, out = sh([HARNESS_EXE, "-suite", suite, "-seed", str(seed), "-ops", str(ops), "-out", trace,
                   "-stats", stats], timeout=7200)
     if rc != 0:
         return dict(error="harness failed: " + out[-2000:])
@@ -279,6 +287,11 @@ def main(argv):
     try:
         return main_(argv)
     finally:
+        try:
+            os.remove(HARNESS_EXE)
+        except OSError:
+            pass
+        shutil.rmtree(os.path.join(WORK, f"scratch-run-{os.getpid()}"), ignore_errors=True)
         if SCRATCH:
             # leave Gen/ describing the real tree again (a later manual `lake build` must not see the scratch copy's facts)
             with Lock("build.lock"):
